@@ -67,6 +67,8 @@ class Ctx:
         self.findings = [f for f in load_findings() if f.get("property") == prop]
         self.replay_dir = tlc.workdir() / "replays"
         self.replay_dir.mkdir(parents=True, exist_ok=True)
+        for old in self.replay_dir.glob(f"{prop}-*.json"):
+            old.unlink()
         self.notes: dict = {}
 
     # ---- accumulation
@@ -137,8 +139,7 @@ class Ctx:
                     n_ok += 1
                 else:
                     rejected.append((start + k - 1, prog.get(k, 0)))
-            self.cov["states"] += res.distinct
-            self.cov["transitions"] += res.generated
+            self.cov["trace_validation_states"] = self.cov.get("trace_validation_states", 0) + res.distinct
         self.cov["traces_validated_against_impl"] += n_ok
         return rejected
 
